@@ -204,8 +204,12 @@ def check_lmethod_get_knee(ctx, mods, x, y, k, fit, cst, label='lmethod.get_knee
         return
     ymax = float(np.max(np.abs(y)))
     xr = float(np.max(np.abs(x))) / max(float(np.min(np.diff(np.asarray(x, float)))), 1e-300)
-    base = n * (16 * EPS * ymax * (1.0 + xr)) ** 2
-    floor = base if cst == 'rss' else math.sqrt(base)
+    # float64 evaluates y_hat = m*x + b with an absolute error delta ~ eps*|y|max*(1 + |x|max/gap); a residual sum of
+    # squares R then carries n*delta^2 (what is left on collinear data) PLUS the cross term 2*delta*sqrt(n*R), which
+    # dominates when the curve sits on a large base level; sqrt(R) carries ~sqrt(n)*delta
+    delta = 16 * EPS * ymax * (1.0 + xr)
+    base = n * delta ** 2
+    floor = (base + 4 * delta * math.sqrt(n * max(float(vals.max()), 0.0))) if cst == 'rss' else 3 * math.sqrt(base)
     best = float(vals.min())
     tol = 1e-9 * float(vals.max()) + floor
     ctx.mx(f'lmethod_gap_over_tol:{fit}:{cst}', (errs[int(k)] - best) / (tol + 1e-300))
